@@ -29,6 +29,10 @@ fn close(a: f64, b: f64, tol: f64) -> bool {
 pub struct SeqsCase {
     pub abc: Abc,
     pub seqs: Vec<Vec<u8>>,
+    /// the whole list is given `repeat` more times: alignments of tens of thousands of sequences (counts past
+    /// 255 and 65535) without writing them out
+    #[serde(default)]
+    pub repeat: usize,
 }
 
 pub struct FromSequences;
@@ -39,7 +43,7 @@ impl Sub for FromSequences {
         "from_sequences"
     }
     fn rule(&self) -> &'static str {
-        "0..20 sequences of equal or unequal lengths (0..30), both alphabets; CountMatrix::from_sequences must give the occurrence counts and sequence count, or InvalidData for unequal lengths; non-trivial = >= 2 sequences of length >= 2"
+        "0..20 sequences of equal or unequal lengths (0..30), both alphabets; sweep = one sequence given 255 / 256 / 257 / 65535 / 65536 / 65537 / 100000 / 131073 times and a pair of sequences given 40001 times; CountMatrix::from_sequences must give the occurrence counts and sequence count, or InvalidData for unequal lengths; non-trivial = >= 2 sequences of length >= 2"
     }
     fn cases(&self, tier: Tier) -> u64 {
         tier.pick(30_000, 600_000)
@@ -54,11 +58,32 @@ impl Sub for FromSequences {
                     (Just(abc), prop_oneof![4 => equal, 1 => ragged])
                 })
             })
-            .prop_map(|(abc, seqs)| SeqsCase { abc, seqs })
+            .prop_map(|(abc, seqs)| SeqsCase { abc, seqs, repeat: 0 })
             .boxed()
     }
+    fn sweep(&self, _tier: Tier) -> Vec<SeqsCase> {
+        let mut out = Vec::new();
+        for abc in [Abc::Dna, Abc::Protein] {
+            // one sequence given 255 .. 131073 times (every column conserved), and a pair differing in one column
+            for total in [255usize, 256, 257, 65535, 65536, 65537, 100_000, 131_073] {
+                out.push(SeqsCase { abc, seqs: vec![vec![3, 0, 2]], repeat: total - 1 });
+            }
+            out.push(SeqsCase { abc, seqs: vec![vec![1, 0], vec![1, 2]], repeat: 40_000 });
+        }
+        out
+    }
     fn check(&self, case: &SeqsCase, _cx: &Cx) -> Verdict {
+        let expanded;
+        let case = if case.repeat > 0 {
+            let n = case.seqs.len() * (case.repeat + 1);
+            expanded = SeqsCase { abc: case.abc, seqs: case.seqs.iter().cycle().take(n).cloned().collect(), repeat: 0 };
+            &expanded
+        } else {
+            case
+        };
         let mut info = CaseInfo::new();
+        info.class_if(case.seqs.len() > 255, "more-than-255-sequences");
+        info.class_if(case.seqs.len() > 65535, "more-than-65535-sequences");
         let equal = case.seqs.windows(2).all(|w| w[0].len() == w[1].len());
         info.class_if(!equal, "unequal-lengths(rejection)");
         info.class_if(case.seqs.is_empty(), "no-sequence");
